@@ -84,6 +84,10 @@ def race_programs(draw):
         st.tuples(st.integers(0, 4), st.sampled_from(['c', 's'])).map(
             lambda a: [('regime', 'manual'), ('resolve', a[0]), ('tick', 2), ('deliver', a[1], None), ('cancel', a[0], 'resp'),
                        ('tick', 1)]),
+        # the same with a failing responder: an ERROR is on the doorstep when the cancel comes
+        st.tuples(st.integers(0, 4), st.sampled_from(['c', 's'])).map(
+            lambda a: [('regime', 'manual'), ('failfut', a[0]), ('tick', 2), ('deliver', a[1], None), ('cancel', a[0], 'resp'),
+                       ('tick', 1)]),
         # cancel immediately after the request, same tick
         st.integers(0, 4).map(lambda i: [('start',), ('cancel', -1, 'resp')]),
         # completion and cancel in the same tick
